@@ -431,6 +431,32 @@ func BuildHEIF(r *core.Rng, tiff []byte, brandChoice int) []byte {
 	p := iloc.PayloadOff + 4
 	binary.BigEndian.PutUint32(out[p+6:], uint32(mdatOff))
 	binary.BigEndian.PutUint32(out[p+14+6:], uint32(mdatOff+len(img)))
+	if brandChoice&8 != 0 {
+		// two mdat boxes (image data in one, metadata in the other, in either order): the item
+		// lies in the box whose extent covers it
+		tail := mdatPayload[len(img)+len(item):]
+		imgBox := &Box{Type: "mdat", Payload: append([]byte{}, img...)}
+		hdr := mdatOff - len(out)
+		mdat.Payload = append(append([]byte{}, item...), tail...)
+		var imgOff, itemOff int
+		if r.Bool() {
+			imgOff = len(out) + 8
+			out = imgBox.Serialise(out)
+			itemOff = len(out) + hdr
+			out = mdat.Serialise(out)
+		} else {
+			itemOff = len(out) + hdr
+			out = mdat.Serialise(out)
+			imgOff = len(out) + 8
+			out = imgBox.Serialise(out)
+		}
+		binary.BigEndian.PutUint32(out[p+6:], uint32(imgOff))
+		binary.BigEndian.PutUint32(out[p+14+6:], uint32(itemOff))
+		tiffOff := itemOff + 10
+		ScrubTIFFSig(out, 0, tiffOff)
+		ScrubTIFFSig(out, tiffOff+len(tiff), len(out))
+		return out
+	}
 	out = mdat.Serialise(out)
 	tiffOff := mdatOff + len(img) + 10
 	ScrubTIFFSig(out, 0, tiffOff)
